@@ -31,14 +31,18 @@ Fills(r, i) == IF i > Len(r.e) THEN {<<>>}
 
 Toggle(p)   == IF p[Len(p)] # "" THEN Append(p, "") ELSE IF Len(p) > 1 THEN SubSeq(p, 1, Len(p) - 1) ELSE p
 Doubled(p)  == {SubSeq(p, 1, k - 1) \o <<"">> \o SubSeq(p, k, Len(p)) : k \in (IF Wide THEN 1..Len(p) ELSE {Len(p)})}
-Prefixes(p) == {SubSeq(p, 1, k) : k \in 1..(Len(p) - 1)}
-Variants(p) == {p, Toggle(p)} \cup Prefixes(p) \cup Doubled(p) \cup (IF Wide THEN {Toggle(d) : d \in Doubled(p)} ELSE {})
+ProperPrefixes(p) == {SubSeq(p, 1, k) : k \in 1..(Len(p) - 1)}
+Variants(p) == {p, Toggle(p)} \cup ProperPrefixes(p) \cup Doubled(p) \cup (IF Wide THEN {Toggle(d) : d \in Doubled(p)} ELSE {})
 
-Paths   == {Root} \cup UNION {Variants(p) : p \in {f \in UNION {Fills(r, 1) : r \in GRTable} : Len(f) >= 1}}
+\* (the derived sets take a dummy argument so that TLC evaluates them once, at GRInit, after the constants
+\*  read from side.json have been cached - as zero-arity definitions they would be pre-evaluated in an
+\*  unspecified order, re-reading side.json at every reference)
+Paths(z) == {Root} \cup UNION {Variants(p) : p \in {f \in UNION {Fills(r, 1) : r \in GRTable} : Len(f) >= 1}}
 Methods == {r.m : r \in GRTable} \cup {"OPTIONS"}
-GRReqs  == {[m |-> m, p |-> p] : m \in Methods \ {AnyM}, p \in Paths}
+GRReqs(z) == {[m |-> m, p |-> p] : m \in Methods \ {AnyM}, p \in Paths(z)}
+GRNoReqs == {}
 
-GRInit == table = {} /\ seen = {} /\ req \in GRReqs
+GRInit == table = {} /\ seen = {} /\ req \in GRReqs(0)
 GRNext == UNCHANGED vars
 GRSpec == GRInit /\ [][GRNext]_vars
 Emit == PrintT(ToJson([t |-> <<>>, q |-> req]))
